@@ -176,6 +176,21 @@ def run_scenario(ctx, scenario, case, workdir):
         except Exception as err:
             out = {"error": f"{type(err).__name__}: {err}"[:300]}
         outputs.append(out)
+        if req['mode'] == 'whole' and ospec['kind'] in ('table', 'pp', 'ghist') and isinstance(out, str) \
+                and 'switch_conf' not in req:
+            # the same request once more, consumed line by line (every report, not only those that happen to be
+            # requested in two modes)
+            try:
+                as_lines = R.render(objs[req['obj']], ospec, dict(req, mode='lines'), scenario['confs'][req['conf']],
+                                    live_conf=live, observe=observe)
+            except Exception as err:
+                as_lines = {"error": f"{type(err).__name__}: {err}"[:300]}
+            ctx.count("whole_text_compared_with_its_lines")
+            if as_lines != out:
+                ctx.violation("line-iteration-differs-from-whole-text",
+                              {"request": idx, "object": ospec['kind'], "req": req,
+                               "whole": out[:60] if isinstance(out, str) else out,
+                               "lines": as_lines[:60] if isinstance(as_lines, str) else as_lines}, case)
         if ospec['kind'] == 'table' and not req['no_color']:
             enum_confs.add(req['conf'])
         # configurations of the request are dropped now; palettes die with them
